@@ -146,3 +146,82 @@ Proof.
   cbv zeta. split; [|split]; [|vm_compute; reflexivity|vm_compute; reflexivity].
   repeat constructor; simpl; intuition discriminate.
 Qed.
+
+(* ------------------------------------------------------------------------------------ *)
+(* THE TIE TO THE SOURCE TEXT (DESIGN 2.4 (a)).  Gen/*.v is rewritten from
+   /repo/src/cr/cube/{matrix,stripe}/cubemeasure.py on every check by the ast translator.  The
+   theorems below say that what the source SAYS NOW for rows_pruning_mask / columns_pruning_mask
+   of the class the factory picks for a (rows, columns) pair (the _BaseCubeCounts definitions
+   "np.sum(self.row_bases, axis=1) == 0" / "np.sum(self.column_bases, axis=0) == 0" with the
+   class's own bases, and the MR overrides), and for the stripe .pruning_base, has exactly the
+   zero set the theorems above are stated with -- for all sizes ([teval]: Base/Tensor.v; [emb] /
+   [emb1] lay the canonical u out as the class's own self._counts; [fits]: u has no cell outside
+   the slice's shape).  [None] = the translator could not read the method (then only the
+   correspondence ties it).  A change of meaning breaks these obligations. *)
+From CC Require Import Base.XQ Base.Tensor Model.CubeCounts Gen.CubeCountsSrc Gen.StripeCountsSrc
+     Proofs.GenAgreeTac Proofs.GenAgreePruning.
+Local Close Scope Q_scope.
+Local Open Scope nat_scope.
+
+Theorem C09_gen_rows_pruning_mask :
+  match src_CubeCounts_dispatch with
+  | Some D => forall rc cc,
+      meth src_methods (dict_pick (tag rc, tag cc) (fst D) (snd D)) "rows_pruning_mask"
+        (fun e => forall u nr nc sr sc, fits u nr (sel_len rc sr) nc (sel_len cc sc) ->
+           match teval (envC (shape_of rc cc nr nc sr sc) (emb rc cc u)) e with
+           | TVal shp f =>
+               shp = [nr] /\
+               forall i, i < nr ->
+                 (f [i] = Fin 1 <->
+                  forall s1 j s2, (is_mm rc cc = false \/ s1 = 0) -> cell4 u i s1 j s2 = 0)
+           | _ => False
+           end)
+  | None => True
+  end.
+Proof. exact gen_dispatch_rows_pruning_mask. Qed.
+Print Assumptions C09_gen_rows_pruning_mask.
+
+Theorem C09_gen_columns_pruning_mask :
+  match src_CubeCounts_dispatch with
+  | Some D => forall rc cc,
+      meth src_methods (dict_pick (tag rc, tag cc) (fst D) (snd D)) "columns_pruning_mask"
+        (fun e => forall u nr nc sr sc, fits u nr (sel_len rc sr) nc (sel_len cc sc) ->
+           match teval (envC (shape_of rc cc nr nc sr sc) (emb rc cc u)) e with
+           | TVal shp f =>
+               shp = [nc] /\
+               forall j, j < nc ->
+                 (f [j] = Fin 1 <->
+                  forall i s1 s2, (is_mm rc cc = false \/ s2 = 0) -> cell4 u i s1 j s2 = 0)
+           | _ => False
+           end)
+  | None => True
+  end.
+Proof. exact gen_dispatch_columns_pruning_mask. Qed.
+Print Assumptions C09_gen_columns_pruning_mask.
+
+Theorem C09_gen_strand_pruning_base :
+  match ssrc_CatCubeCounts_pruning_base with
+  | Some e => strand_base_agrees CCat e | None => True end /\
+  match ssrc_MrCubeCounts_pruning_base with
+  | Some e => strand_base_agrees CMr e | None => True end /\
+  match ssrc_NumArrCubeCounts_pruning_base with
+  | Some e => strand_base_agrees CArr e | None => True end.
+Proof.
+  exact (conj gen_stripe_CatCubeCounts_pruning_base
+        (conj gen_stripe_MrCubeCounts_pruning_base gen_stripe_NumArrCubeCounts_pruning_base)).
+Qed.
+Print Assumptions C09_gen_strand_pruning_base.
+
+(* ... and that zero set is the model's list of empty vectors (Model/OrderPruning.v) *)
+Theorem C09_gen_criterion_is_model mrxmr ncols (u : t4) (w : t4w) (us : list (list nat)) ws :
+  (forall i, In i (empty_rows mrxmr u w) <->
+     i < List.length u /\ forall s1 j s2, (mrxmr = false \/ s1 = 0) -> cell4 u i s1 j s2 = 0) /\
+  (forall j, In j (empty_columns mrxmr ncols u w) <->
+     j < ncols /\ forall i s1 s2, (mrxmr = false \/ s2 = 0) -> cell4 u i s1 j s2 = 0) /\
+  (forall i, In i (empty_strand_rows us ws) <->
+     i < List.length us /\ forall s, cell2 us i s = 0).
+Proof.
+  exact (conj (empty_rows_iff mrxmr u w)
+        (conj (empty_columns_iff mrxmr ncols u w) (empty_strand_rows_iff us ws))).
+Qed.
+Print Assumptions C09_gen_criterion_is_model.
